@@ -23,3 +23,8 @@ def run(ctx):
     n = ctx.pick(300, 15000)
     drive(ctx, "xml", n, (lambda i: [1 + i % 12]) if ctx.quick else (lambda i: [1 + i % 12, 1 + (i + 6) % 12]),
           fixture_precisions=(4,) if ctx.quick else (2, 4, 8, 12), keep_prefix="C03")
+
+    # ambient workload (thorough tier): the repository's own tests with the contracts installed
+    if not ctx.quick and ctx.shard == 0 and ctx.only is None:
+        from vf.ambient import run_ambient
+        run_ambient(ctx, ['roundtrip'])
